@@ -11,6 +11,8 @@ A *spec* is what the harness passes around and records as a replay: plain JSON s
     {"rep": [open, n, mid, close]}  the text open*n + mid + close*n  (nesting to depth n)
     {"obj": [class name, hex]}  a btclib object parsed back (check_validity=False) from its serialization
     {"dec": "…"}          decimal.Decimal
+    {"flag": n}           script.engine.flags.ScriptFlag(n)
+    {"call": [dotted name, [arg specs], {kw specs}]}   the object a btclib constructor returns
 `materialize` turns a spec into the Python value, `spec_of` goes back where that is possible.
 """
 from __future__ import annotations
@@ -104,6 +106,14 @@ def materialize(s):
                 return c.parse(bytes.fromhex(hx))
         if "dec" in s:
             return Decimal(s["dec"])
+        if "flag" in s:
+            from btclib.script.engine.flags import ScriptFlag
+            return ScriptFlag(s["flag"])
+        if "call" in s:                     # an object built by calling a btclib constructor / function
+            name, cargs, ckw = s["call"]
+            mod, _, attr = name.rpartition(".")
+            f = getattr(importlib.import_module(mod), attr)
+            return f(*[materialize(x) for x in cargs], **{k: materialize(v) for k, v in ckw.items()})
         raise ValueError(f"bad spec {list(s)[:3]}")
     return s
 
